@@ -17,7 +17,11 @@ typedef CHAR C;
 typedef unsigned long long u64;
 enum : unsigned { BITS = sizeof(T) * 8U, MAXD = ((BITS * 30103U) / 100000U) + 1U };   // 3, 5, 10, 20 digits
 static const bool T_SIGNED = (T(-1) < T(0));
-typedef FixedStream<C, MAXD + 4> FS;
+// FixedStream's generic operator+=(const S&) captures a plain `char` argument when Char_T is wider (the real StringStream
+// has only operator+=(Char_T), so the char converts); hiding the base overload set restores that behaviour.
+struct FS : FixedStream<C, MAXD + 4> {
+    void operator+=(C c) { FixedStream<C, MAXD + 4>::operator+=(c); }
+};
 
 // Horner parse of the digit run d[0..n) (most significant first, or least significant first when `reversed`), with
 // overflow detection.  The digits are consumed two at a time -- (acc*10+a)*10+b == acc*100 + (10a+b) -- which is the
@@ -44,6 +48,7 @@ static bool ref_parse(const C *d, unsigned n, bool reversed, u64 &out) {
     out = acc;
     return true;
 }
+
 static u64 magnitude(T v, bool &neg) {
     neg = T_SIGNED && (v < T(0));
     const u64 wide = u64((long long)v);                     // sign-extended
@@ -51,15 +56,31 @@ static u64 magnitude(T v, bool &neg) {
     return (neg ? (0ULL - wide) : wide) & mask;             // |minimum| = 2^(BITS-1) fits the unsigned type
 }
 
-#ifdef MAXV
-#define WINDOW(x) vf_assume(u64(x) <= u64(MAXV))   // value window for the direct (Horner) oracle on wide types
+// Wide types (32/64 bit): no back end decided the Horner oracle over the whole type (see specs/C10.py), so the value
+// is drawn either from a window [0, MAXV] or from the edge set {10^k - 1, 10^k, type maxima, signed minimum (+1)}.
+static const u64 UMAXV = (BITS == 64U) ? ~0ULL : ((1ULL << (BITS & 63U)) - 1ULL);
+#if defined(EDGE)
+static const u64 P10[20] = {1ULL, 10ULL, 100ULL, 1000ULL, 10000ULL, 100000ULL, 1000000ULL, 10000000ULL, 100000000ULL, 1000000000ULL,
+    10000000000ULL, 100000000000ULL, 1000000000000ULL, 10000000000000ULL, 100000000000000ULL, 1000000000000000ULL,
+    10000000000000000ULL, 100000000000000000ULL, 1000000000000000000ULL, 10000000000000000000ULL};
+static T pick() {
+    unsigned k = vf_u8();
+    unsigned d = vf_u8();
+    vf_assume(k < MAXD + 3U && d < 2U);
+    u64 base = (UMAXV >> 1) + 2ULL;                 // k == MAXD+2: signed minimum + 1, signed minimum
+    if (k < MAXD) base = P10[k];                    // 10^k, 10^k - 1
+    else if (k == MAXD) base = UMAXV;               // all ones (-1), all ones - 1
+    else if (k == MAXD + 1U) base = UMAXV >> 1;     // signed maximum, - 1
+    return T(base - d);
+}
+#elif defined(MAXV)
+static T pick() { T v = vf_any<T>(); bool neg = false; const u64 mag = magnitude(v, neg); vf_assume(mag <= u64(MAXV)); return v; }
 #else
-#define WINDOW(x)
+static T pick() { return vf_any<T>(); }
 #endif
 
 extern "C" void h_i2s() {        // IntToString<false>: writes backwards from the end of the caller's buffer
-    T v = vf_any<T>();
-    WINDOW(v);
+    T v = pick();
     C st[MAXD];
     const SizeT n = Digit::IntToString(&st[MAXD], v);
     vf_assert(n >= 1U && n <= MAXD, 1);
@@ -71,8 +92,7 @@ extern "C" void h_i2s() {        // IntToString<false>: writes backwards from th
 }
 
 extern "C" void h_i2s_rev() {    // IntToString<true>: least significant digit first, forwards
-    T v = vf_any<T>();
-    WINDOW(v);
+    T v = pick();
     C st[MAXD];
     const SizeT n = Digit::IntToString<true>(&st[0], v);
     vf_assert(n >= 1U && n <= MAXD, 1);
@@ -84,7 +104,7 @@ extern "C" void h_i2s_rev() {    // IntToString<true>: least significant digit f
 }
 
 template <bool REV> static void n2s() {
-    T v = vf_any<T>();
+    T v = pick();
     unsigned pl = vf_u8();
     vf_assume(pl <= 2U);
     C p0 = vf_any<C>();
@@ -95,7 +115,6 @@ template <bool REV> static void n2s() {
     Digit::NumberToString<REV>(s, v);
     bool neg = false;
     const u64 mag = magnitude(v, neg);
-    WINDOW(mag);
     vf_assert(!s.overflow, 1);
     const unsigned len = s.Length();
     vf_assert(len >= pl + 1U + (neg ? 1U : 0U) && len <= pl + MAXD + (neg ? 1U : 0U), 2);
@@ -113,28 +132,14 @@ template <bool REV> static void n2s() {
 extern "C" void h_n2s() { n2s<false>(); }
 extern "C" void h_n2s_rev() { n2s<true>(); }
 
-// ---- wide types (32/64 bit): induction over v/100, one step per query -------------------------------------------------
-// SAT does not decide the direct Horner oracle beyond ~5 digits (measured: 32-bit, 300 s, minisat/kissat/cadical), so for
-// wide types the claim is split into
-//   base : every v < 100 prints as its decimal text, and DigitTable1[2r], [2r+1] are the two decimal digits of r (r < 100)
-//   step : for every w >= 1 and r < 100 with w*100+r representable:  text(w*100+r) == text(w) ++ Table1[2r] Table1[2r+1]
-//   wrap : NumberToString(stream, v) appends ['-'] ++ IntToString(|v|) and leaves the existing content alone
-// base + step give, by induction on v (the induction itself is a paper step), text(v) == decimal(v) for EVERY v of the type.
-template <unsigned> struct UnsignedOf;
-template <> struct UnsignedOf<1> { typedef unsigned char type; };
-template <> struct UnsignedOf<2> { typedef unsigned short type; };
-template <> struct UnsignedOf<4> { typedef unsigned int type; };
-template <> struct UnsignedOf<8> { typedef unsigned long long type; };
-typedef UnsignedOf<sizeof(T)>::type UT;
-static const UT UMAX = UT(~UT(0));
 
-extern "C" void h_base() {       // v < 100, both directions; the pair table against its closed form
+extern "C" void h_base() {       // every v < 100, both directions, and the pair table against its closed form
     unsigned v = vf_u8();
     vf_assume(v < 100U);
     C a[MAXD];
     C b[MAXD];
-    const SizeT na = Digit::IntToString(&a[MAXD], UT(v));
-    const SizeT nb = Digit::IntToString<true>(&b[0], UT(v));
+    const SizeT na = Digit::IntToString(&a[MAXD], T(v));
+    const SizeT nb = Digit::IntToString<true>(&b[0], T(v));
     const C d1 = C('0' + v / 10U), d0 = C('0' + v % 10U);
     vf_assert(na == ((v < 10U) ? 1U : 2U) && nb == na, 1);
     vf_assert(a[MAXD - 1U] == d0 && b[0] == d0, 2);
@@ -142,62 +147,3 @@ extern "C" void h_base() {       // v < 100, both directions; the pair table aga
     vf_assert(DigitUtils::DigitTable1[2U * v] == char('0' + v / 10U) && DigitUtils::DigitTable1[2U * v + 1U] == char('0' + v % 10U), 4);
     vf_witness();
 }
-
-template <bool REV> static void step() {
-    UT w = vf_any<UT>();
-    unsigned r = vf_u8();
-    vf_assume(r < 100U);
-    vf_assume(w >= UT(1) && (w < UT(UMAX / 100U) || (w == UT(UMAX / 100U) && r <= unsigned(UMAX % 100U))));
-    const UT v = UT(w * UT(100) + UT(r));
-    C a[MAXD];
-    C b[MAXD];
-    const C hi = C(DigitUtils::DigitTable1[2U * r]), lo = C(DigitUtils::DigitTable1[2U * r + 1U]);
-    if (REV) {
-        const SizeT na = Digit::IntToString<true>(&a[0], v);
-        const SizeT nb = Digit::IntToString<true>(&b[0], w);
-        vf_assert(nb >= 1U && nb <= MAXD - 2U && na == nb + 2U, 1);
-        vf_assert(a[0] == lo && a[1] == hi, 2);
-        unsigned i = vf_u8();
-        vf_assume(i < nb);
-        vf_assert(a[2U + i] == b[i], 3);
-    } else {
-        const SizeT na = Digit::IntToString(&a[MAXD], v);
-        const SizeT nb = Digit::IntToString(&b[MAXD], w);
-        vf_assert(nb >= 1U && nb <= MAXD - 2U && na == nb + 2U, 1);
-        vf_assert(a[MAXD - 1U] == lo && a[MAXD - 2U] == hi, 2);
-        unsigned i = vf_u8();
-        vf_assume(i < nb);
-        vf_assert(a[MAXD - 3U - i] == b[MAXD - 1U - i], 3);
-    }
-    vf_witness();
-}
-extern "C" void h_step() { step<false>(); }
-extern "C" void h_step_rev() { step<true>(); }
-
-template <bool REV> static void wrap() {   // NumberToString == prefix ++ ['-'] ++ IntToString(|v|)
-    T v = vf_any<T>();
-    unsigned pl = vf_u8();
-    vf_assume(pl <= 2U);
-    C p0 = vf_any<C>();
-    C p1 = vf_any<C>();
-    FS s;
-    if (pl >= 1U) s += p0;
-    if (pl >= 2U) s += p1;
-    Digit::NumberToString<REV>(s, v);
-    bool neg = false;
-    const UT mag = UT(magnitude(v, neg));
-    C k[MAXD];
-    const SizeT n = REV ? Digit::IntToString<true>(&k[0], mag) : Digit::IntToString(&k[MAXD], mag);
-    vf_assert(!s.overflow, 1);
-    vf_assert(n >= 1U && n <= MAXD && s.Length() == pl + (neg ? 1U : 0U) + n, 2);
-    if (pl >= 1U) vf_assert(s.First()[0] == p0, 3);
-    if (pl >= 2U) vf_assert(s.First()[1] == p1, 4);
-    unsigned at = pl;
-    if (neg) { vf_assert(s.First()[at] == C('-'), 5); ++at; }
-    unsigned i = vf_u8();
-    vf_assume(i < n);
-    vf_assert(s.First()[at + i] == (REV ? k[i] : k[MAXD - n + i]), 6);
-    vf_witness();
-}
-extern "C" void h_wrap() { wrap<false>(); }
-extern "C" void h_wrap_rev() { wrap<true>(); }
